@@ -60,9 +60,11 @@ class T2TSilicon(object):
             return bool(self.mem[11] >> (page - 8) & 1)
         return False
 
+    nak_value = 0x00      # the 4 bit NAK a product answers (0h invalid argument, 1h, 4h, 5h are the other documented ones)
+
     def _nak(self):
         self.active = False   # tag leaves ACTIVE state until re-selected
-        return b"\x00"
+        return bytes([self.nak_value])
 
     def command(self, data):
         self.cmd_log.append(bytes(data))
